@@ -1,4 +1,4 @@
-import T4V.Proofs.Post
+import T4V.Proofs.PostClosed
 import T4V.Proofs.Optimise
 /-!
 # Property C08 — structural validity of the written file (the clauses that are logic of the model)
@@ -23,13 +23,22 @@ theorem final_no_surface_on_both_sides (u : Nat × Nat) (hu : u.1 ≠ u.2) (vols
     ∀ p ∈ removeUnused (removeEmpty u vols), p.2.empty = false :=
   fun p hp => removeEmpty_noEmpty u hu vols p (removeUnused_sub _ p hp)
 
-/-- Full-strength closedness (every UNION/INTE operand of the final dictionary is a key of it),
-**not yet proved**: kept as a definition. -/
-def closed_after_post : Prop :=
-  ∀ (u : Nat × Nat) (vols : List (Nat × Vol)),
-    (∀ p ∈ vols, ∀ op ids, p.2.ops = some (op, ids) → ∀ k ∈ ids, hasKey vols k) →
-    ∀ p ∈ removeUnused (removeEmpty u vols), ∀ op ids, p.2.ops = some (op, ids) →
-      ∀ k ∈ ids, hasKey (removeUnused (removeEmpty u vols)) k
+/-- **closedness after post-processing**: every UNION/INTE operand of the final dictionary is a key of it
+(for a dictionary with unique keys, as Python's `dict` is); the loop of `remove_empty_volumes` is shown to
+end with an empty queue (every round after the first deletes a volume) -/
+theorem closed_after_post (dedup : Bool) (surfs : List (Nat × String)) (u : Nat × Nat) (vols : List (Nat × Vol))
+    (hnd : KeysNodup vols)
+    (hc : ∀ p ∈ vols, ∀ op ids, p.2.ops = some (op, ids) → ∀ k ∈ ids, hasKey vols k) :
+    ∀ p ∈ (postProcess dedup surfs u vols).2, ∀ op ids, p.2.ops = some (op, ids) →
+      ∀ k ∈ ids, hasKey (postProcess dedup surfs u vols).2 k := by
+  have hc' : Closed vols := by
+    intro p hp r hr
+    unfold idsOf at hr
+    cases ho : p.2.ops with
+    | none => simp [ho] at hr
+    | some x => obtain ⟨op, ids⟩ := x; exact hc p hp op ids ho r (by simpa [ho] using hr)
+  intro p hp op ids ho k hk
+  exact postProcess_closed dedup surfs u vols hc' hnd p hp k (by simp [idsOf, ho, hk])
 
 example : ((8 : Nat), (9 : Nat)).1 ≠ ((8 : Nat), (9 : Nat)).2 := by decide
 
